@@ -28,6 +28,11 @@ def cat_case(draw, names, max_rows=5, min_rows=0, allow_ragged=True, ragged_min=
     e = catalog.get(name)
     ragged = allow_ragged and not e.has("rect") and draw(st.booleans())
     S = [draw(cat_table(ragged=ragged, max_rows=max_rows, min_rows=min_rows, cells=e.cells, ragged_min=ragged_min)) for _ in range(e.n)]
+    # whole rows shared between the inputs (set operations and natural joins only have work to do then)
+    if e.n >= 2 and len(S[0]) > 1 and draw(st.booleans()):
+        for t in S[1:]:
+            for r in draw(st.lists(st.sampled_from(S[0][1:]), min_size=1, max_size=3)):
+                t.insert(draw(st.integers(1, len(t))), list(r))
     return {"entry": name, "sources": S}
 
 
